@@ -122,6 +122,25 @@ class WatchedConnection(SimConnection):
         self.__dict__.setdefault("wakes", [])
         self.__dict__["_watched_event"] = WatchedEvent(self, ev)
 
+    # which reactor's close() contract applies when the peer closes the socket (see CloseSteps in Handshake.tla):
+    # "record_set" asyncore (= SimConnection.close), "set_only" asyncio/eventlet/gevent/twisted close(), "no_set" libev
+    close_contract = "record_set"
+
+    def close(self):
+        if self.close_contract == "record_set":
+            return SimConnection.close(self)
+        with self.lock:
+            if self.is_closed:
+                return
+            self.is_closed = True
+        self.close_log.append((self.world.clock.now, self.in_flight, len(self.orphaned_request_ids)))
+        if self.node is not None:
+            self.node.on_close(self)
+        if not self.is_defunct:
+            self.error_all_requests(cconn.ConnectionShutdown("Connection to %s was closed" % self.endpoint))
+            if self.close_contract == "set_only":
+                self.connected_event.set()
+
 
 # ------------------------------------------------------------------ the scripted server
 class ScriptNode:
@@ -283,6 +302,7 @@ class Server:
     def deliver(self, m):
         k = m["k"]
         if k == "Disconnect":
+            self.conn.close_contract = m.get("kind") or "record_set"
             self.conn.server_closed()
         elif k == "SUPPORTED":
             self.send(wire.SUPPORTED, wire.body_supported({"CQL_VERSION": ["3.4.5"],
@@ -325,6 +345,9 @@ def project(conn, node):
         outcome = "ready"
     else:
         outcome = "pending"
+    dead = bool(conn.is_defunct or conn.is_closed)
+    if outcome == "pending" and dead:
+        outcome = "conn_error"                  # nothing will set the event any more: factory's wait() times out
     if outcome == "ready":
         phase = "Ready"
     elif outcome != "pending":
@@ -497,6 +520,8 @@ def random_reply(rng, phase):
     table = _WEIGHTED.get(phase) or _WEIGHTED["OptionsSent"]
     k = rng.choices([k for k, _ in table], weights=[w for _, w in table])[0]
     m = {"k": k, "algos": [], "kind": ""}
+    if k == "Disconnect":
+        m["kind"] = rng.choice(["record_set", "no_set"])
     if k == "SUPPORTED" and phase == "OptionsSent":
         m["algos"] = sorted(rng.choice([(), ("lz4",), ("snappy",), ("lz4", "snappy"), ("lz4", "snappy")]))
     elif k == "ERROR":
